@@ -1,5 +1,6 @@
 import Driver.Proto
 import SaphyrVerif.Spec.Scalars
+import SaphyrVerif.Model.Float
 namespace Driver.C06
 open Driver SaphyrVerif SaphyrVerif.Scalars
 
@@ -42,6 +43,14 @@ def handle : List String → String
     match tokChars s with
     | some cs => boolTok (leadingZeroDecimal cs)
     | _ => "bad-op"
+  | ["float", w, s] =>
+    match w.toNat?, tokChars s with
+    | some w, some cs =>
+      (match Float.parseYaml12Float w cs with
+       | none => "none"
+       | some .nan => "some nan"
+       | some (.bits b) => s!"some {b}")
+    | _, _ => "bad-op"
   | ["b64", s] =>
     match tokBytes s with
     | some bs => optTok bytesTok (Base64.decode bs)
